@@ -60,6 +60,23 @@ pub open spec fn ptr_ok(h: &Heap, p: &HeapPrimitive) -> bool {
 pub uninterp spec fn oid(o: &ObjH) -> int;                      // Object::id_addr: the identity token an object got from ObjectBuilder::build
 #[verifier::external_body] pub fn id_addr(o: &ObjH) -> (r: usize) ensures r as int == oid(o) { unimplemented!() }
 pub enum PrimI { Object(ObjH), Other(OtherV) }
+// ---- identity of lists and maps (`a is b`) ----
+// what std says about the addresses involved: the Gc cell of a list / map is an allocation of its own (distinct cells, distinct addresses);
+// the BUFFER of a Vec is an allocation only when the Vec has capacity -- an empty Vec that never allocated points to a dangling, well-aligned
+// address that is the same for every such Vec
+pub uninterp spec fn cell_addr(cell: int) -> int;
+pub uninterp spec fn buffer_addr(cell: int) -> int;
+pub uninterp spec fn has_buffer(h: &Heap, cell: int) -> bool;
+pub open spec fn dangling() -> int { 8 }
+pub broadcast axiom fn cell_addr_injective(a: int, b: int) ensures #[trigger] cell_addr(a) == #[trigger] cell_addr(b) ==> a == b;
+pub broadcast axiom fn buffer_addr_injective(a: int, b: int) ensures #[trigger] buffer_addr(a) == #[trigger] buffer_addr(b) ==> a == b;
+// `self.0.borrow().as_ptr()` : the Vec's buffer pointer
+#[verifier::external_body] pub fn vec_buffer_ptr(h: &Heap, v: &VecH) -> (r: usize) ensures r as int == (if has_buffer(h, vid(v)) { buffer_addr(vid(v)) } else { dangling() }) { unimplemented!() }
+// `&*self.0 as *const _` / Gc::ptr_eq : the address of the Gc cell itself
+#[verifier::external_body] pub fn vec_cell_ptr(v: &VecH) -> (r: usize) ensures r as int == cell_addr(vid(v)) { unimplemented!() }
+#[verifier::external_body] pub fn map_cell_ptr(m: &MapH) -> (r: usize) ensures r as int == cell_addr(mid(m)) { unimplemented!() }
+#[verifier::external_body] pub fn vec_ptr_eq(a: &VecH, b: &VecH) -> (r: bool) ensures r == (vid(a) == vid(b)) { unimplemented!() }
+#[verifier::external_body] pub fn map_ptr_eq(a: &MapH, b: &MapH) -> (r: bool) ensures r == (mid(a) == mid(b)) { unimplemented!() }
 """
 
 
@@ -86,7 +103,41 @@ def build_set(repo):
     ba = translate(arm["body"], [Rule("R1", "Primitive :: Bool ( $$e )", "$$e", why="result wrapped in Bool: the flag itself"),
                                  Rule("R1", "$o . id_addr ( )", "id_addr ( $o )", why="identity token"),
                                  Rule("R1", "return Ok ( $$e )", "return $$e", why="")], log, "runtime_addr_check[Object]")
-    gen = header(log, f"{PRIM}: HeapPrimitive::set; Primitive::runtime_addr_check (object arm)") + SET_SPEC + f"""
+    # runtime_addr_check: the Vector and Map arms, with GcVector::addr / GcMap::addr carried along (their own bodies are their contracts)
+    def arm_of(pat, what):
+        try:
+            a = extract_match_arm(fa["body"], pat)
+        except Exception as e:
+            raise Undecided(f"{PRIM}: arm {what} of runtime_addr_check not found: {e}")
+        return translate(a["body"], [Rule("R1", "Primitive :: Bool ( $$e )", "$$e", why="result wrapped in Bool: the flag itself"),
+                                     Rule("R1", "$o . addr ( )", "$o . addr ( heap )", why="explicit heap (R10)"),
+                                     Rule("R10", "Gc :: ptr_eq ( & $a . 0 , & $b . 0 )", lambda b: None, why=""),
+                                     Rule("R1", "return Ok ( $$e )", "return $$e", why="")], log, f"runtime_addr_check[{what}]")
+    bv = arm_of("( Self :: Vector ( v1 ) , Self :: Vector ( v2 ) )", "Vector")
+    bm = arm_of("( Self :: Map ( m1 ) , Self :: Map ( m2 ) )", "Map")
+    addr_rules = [
+        Rule("R10", "self . 0 . borrow ( ) . as_ptr ( )", "vec_buffer_ptr ( heap , self )", why="Vec::as_ptr of the list's storage: the BUFFER address (std: dangling for a Vec without capacity)"),
+        Rule("R10", "let view = self . 0 . borrow ( ) ; & * view as * const _", "map_cell_ptr ( self )", why="address of the HashMap inside the Gc cell: one per cell"),
+        Rule("R10", "& * self . 0 as * const _", "SELF_CELL_PTR", why="address of the Gc cell: one per cell"),
+        Rule("R10", "Gc :: as_ptr ( & self . 0 )", "SELF_CELL_PTR", why="address of the Gc cell: one per cell"),
+    ]
+    fva = src.fn(PRIM, "addr", "impl GcVector")
+    fma = src.fn(PRIM, "addr", "impl GcMap")
+    bva = Rule("R10", "SELF_CELL_PTR", "vec_cell_ptr ( self )", why="").apply(translate(list(fva["body"]), addr_rules, log, "GcVector::addr"), log)
+    bma = Rule("R10", "SELF_CELL_PTR", "map_cell_ptr ( self )", why="").apply(translate(list(fma["body"]), addr_rules, log, "GcMap::addr"), log)
+    # the callee is inlined at its call sites (it is a one-expression accessor): the caller is then checked against what `addr` computes
+    def inline_addr(arm_toks, body, what):
+        if ";" in body or "return" in body:
+            raise Undecided(f"{what} is no longer a single expression: not inlined")
+        def repl(b):
+            o = b["o"]
+            return ["("] + [t if t != "self" else text(o) for t in body] + [")"]
+        return Rule("R14", "$o . addr ( heap )", repl, count=2, why=f"{what}: one-expression accessor inlined at the call").apply(arm_toks, log)
+    bv = inline_addr(bv, bva, "GcVector::addr")
+    bm = inline_addr(bm, bma, "GcMap::addr")
+    for bb, w in ((bv, "is[Vector]"), (bm, "is[Map]"), (bva, "GcVector::addr"), (bma, "GcMap::addr")):
+        check_closed(bb, w)
+    gen = header(log, f"{PRIM}: HeapPrimitive::set; Primitive::runtime_addr_check (object, list and map arms); GcVector::addr, GcMap::addr") + SET_SPEC + f"""
 impl HeapPrimitive {{
     //@ OBL C08.ptr.set
     pub fn set(&self, new_val: Primitive, heap: &mut Heap) -> (r: Result<(), VErr>)
@@ -113,10 +164,29 @@ pub fn is_same_object(o1: &ObjH, o2: &ObjH) -> (r: bool)
 {{
 {render(ba, 1)}
 }}
+
+//@ OBL C13.is.list-identity
+// `a is b` on two lists: true exactly when both denote the same list -- two distinct lists are never `is`-identical, whatever they hold (also when
+// both are empty), and a list is identical to every alias of itself
+pub fn is_same_list(v1: &VecH, v2: &VecH, heap: &Heap) -> (r: bool)
+    ensures r == (vid(v1) == vid(v2))
+{{
+    broadcast use cell_addr_injective, buffer_addr_injective;
+{render(bv, 1)}
+}}
+//@ OBL C13.is.map-identity
+pub fn is_same_map(m1: &MapH, m2: &MapH, heap: &Heap) -> (r: bool)
+    ensures r == (mid(m1) == mid(m2))
+{{
+    broadcast use cell_addr_injective, buffer_addr_injective;
+{render(bm, 1)}
+}}
 }} // verus!
 fn main() {{}}
 """
-    return gen, [Obl("C08.ptr.set", ["C08", "C13"], fn="HeapPrimitive::set", desc="HeapPrimitive::set: the value (any kind) is written into exactly the field cell / list slot / map key the pointer denotes; nothing else changes"),
+    return gen, [Obl("C13.is.list-identity", ["C13", "C08"], fn="is_same_list", desc="runtime_addr_check on two lists: identity of the list (the shared cell), not of its storage: two distinct empty lists are not identical"),
+                 Obl("C13.is.map-identity", ["C13", "C08"], fn="is_same_map", desc="runtime_addr_check on two maps: identity of the map (the shared cell)"),
+                 Obl("C08.ptr.set", ["C08", "C13"], fn="HeapPrimitive::set", desc="HeapPrimitive::set: the value (any kind) is written into exactly the field cell / list slot / map key the pointer denotes; nothing else changes"),
                  Obl("C08.is.identity", ["C08"], fn="is_same_object", desc="runtime_addr_check on two objects compares their identity tokens")], log
 
 
